@@ -93,6 +93,8 @@ def run(res, tier, seed, shard, nshards):
         cases.append(("two-connections", i))
     for i in range(150 if tier == "quick" else 3000):
         cases.append(("half-closed", i))
+    for i in range(60 if tier == "quick" else 1500):
+        cases.append(("pong-failure", i))
 
     def scen():
         for i, c in enumerate(cases):
@@ -105,6 +107,8 @@ def run(res, tier, seed, shard, nshards):
                 judge(res, W, stream, call, pf, skip, ("one", is_text, payload, comp, gaps), len(comp) >= 2 or any(g != "none" for g in gaps))
             elif c[0] == "half-closed":
                 half_closed_case(res, W, rng)
+            elif c[0] == "pong-failure":
+                pong_failure_case(res, W, rng)
             elif c[0] == "two-connections":
                 two_connections_case(res, W, rng)
             elif c[0] == "multi":
@@ -212,6 +216,66 @@ def two_connections_case(res, W, rng):
         case = {"tag": "two-connections", "connection": ci, "of": n, "stream": c["stream"], "per_fragment": pf}
         for kind, detail, fields in issues:
             res.violation(kind, f"connection {ci} of {n} served alternately (pf={pf}): {detail}", case, per_fragment=pf, skip=0, concurrent_connections=n, **fields)
+
+
+def pong_failure_case(res, W, rng):
+    """A ping sits between two fragments and the automatic pong fails once (the write times out / the application's key source raises):
+    the application catches that and goes on receiving - the message under way is still delivered whole."""
+    import socket as _socket
+    how = rng.choice(["write-timeout", "key-source-raises"])
+    st = {"armed": False}
+
+    def key(n):
+        if st["armed"]:
+            st["armed"] = False
+            raise RuntimeError("entropy source not ready")
+        return b"\x11\x22\x33\x44"[:n]
+    pf = rng.random() < 0.3
+    kw = {"get_mask_key": key} if how == "key-source-raises" else {}
+    if pf:
+        kw["fire_cont_frame"] = True
+    w, conn, peer = H.connected_ws(timeout=1, ws_kwargs=kw)
+    is_text = rng.random() < 0.5
+    parts = [b"Hello, ", b"wor", b"ld"] if is_text else [b"\x00\x01", b"\xfe", b"\xff"]
+    op = R.TEXT if is_text else R.BINARY
+    where = rng.randrange(1, 3)  # the ping comes before fragment number `where`
+    stream = b""
+    for i, part in enumerate(parts):
+        if i == where:
+            stream += R.encode(R.PING, b"are-you-there")
+        stream += R.encode(op if i == 0 else R.CONT, part, fin=1 if i == len(parts) - 1 else 0)
+    stream += R.encode(R.TEXT, b"second")
+    conn.deliver(stream)
+    if how == "write-timeout":
+        conn.send_error = _socket.timeout("timed out")
+    else:
+        st["armed"] = True
+    case = {"gen": "pong-failure", "how": how, "text": is_text, "ping_before_fragment": where, "per_fragment": pf}
+    res.case(("pong-failure", how, is_text, where, pf), nontrivial=True)
+    res.count("pong_failure_cases")
+    got, errors = [], []
+    for _ in range(12):
+        try:
+            o, fr = w.recv_data_frame(False)
+        except W.WebSocketTimeoutException:
+            if len(errors) >= 1:
+                break
+            errors.append("timeout")
+            continue
+        except RuntimeError as e:
+            errors.append("key-source")
+            continue
+        except Exception as e:  # noqa
+            res.violation("legal-rejected", f"automatic pong failed once ({how}) between fragments, the application went on receiving: {type(e).__name__}: {e}; "
+                          f"delivered so far {got}", case, per_fragment=pf, skip=False)
+            return
+        got.append((o, bytes(fr.data)))
+        if got[-1] == (R.TEXT, b"second"):
+            break
+    whole = b"".join(parts)
+    exp = ([(op if i == 0 else R.CONT, part) for i, part in enumerate(parts)] if pf else [(op, whole)]) + [(R.TEXT, b"second")]
+    if got != exp:
+        res.violation("value-mismatch", f"automatic pong failed once ({how}) between fragments: delivered {got}, expected {exp}", case, per_fragment=pf, skip=False)
 
 
 def half_closed_case(res, W, rng):
